@@ -318,3 +318,9 @@ Proof.
       (repeat split; try reflexivity; apply in_or_app; right; apply in_or_app; left; exact D2).
   - cbn [fst snd]. repeat split; try assumption. apply in_or_app; right; apply in_or_app; left; exact D2.
 Qed.
+
+(** facts about the regenerated constants *)
+Lemma structural_constants_lemma :
+  LLR_WIDTH = VITERBI_LLR_WIDTH /\ FRAMER_BITS = 368 /\ PAYLOAD_SYMBOLS = 184 /\ POLARITY = 1 /\
+  FAR_POINT * 2 = SAMPLES_PER_SYMBOL /\ CORR_SPS = SAMPLES_PER_SYMBOL /\ CORR_BUFFER = SYNC_SYMBOLS * SAMPLES_PER_SYMBOL.
+Proof. repeat split; reflexivity. Qed.
